@@ -27,7 +27,7 @@ def laziness(chk, tier, seed):
     if not r.ok:
         raise vf.ToolError("XrBound failed:\n" + r.out[-2500:])
     chk.add_tlc(r)
-    cases = [c for c in r.cases() if c["source"] == "obs" and c["verdict"]["v"] == "value"]
+    cases = [c for c in r.cases() if c["source"] == "obs" and c["verdict"]["v"] == "value" and c["need"] >= 0]
     if len(cases) > 4000:
         cases = rnd.sample(cases, 4000)
     jobs = [{"id": "lz%d" % i, "src": "let v0 = %s;\n" % c["src"], "observe": ["v0"], "limits": LIM, "timeout_ms": 20000, "max_elems": 64} for i, c in enumerate(cases)]
